@@ -303,7 +303,7 @@ def run_leg(exe, leg, seed, total, workdir, flavour, harness, extra_args=(), job
     return res
 
 
-def union_sigs(files, cap=2000000):
+def union_sigs(files, cap=50000000):
     seen = set()
     for p in files:
         try:
